@@ -10,6 +10,7 @@ INFO = dict(
     "re-evaluated from (configuration, sampled delay streams, recorded blocking arrivals) on every real record, and the record is compared bit-exactly with the Lean machine. "
     "Non-trivial: the episode contains an overrun (previous step ends after the drifted schedule) or a step held by a late blocking input",
     trusted=[
+        "Lean machine level (every schedule): start law, previous-end / shift / scheduled-time recurrences, non-overlap, arrival recurrence of every recorded message (Async/Records, Chain, Arrival)",
         "harness/extract.py for the kernels of push_scheduled_ts / push_phase_shift / push_step / push_ts_input",
         "monitors: harness/monitors_async.py; delay streams obtained from the wrappers' own jitted samplers",
     ],
